@@ -1,5 +1,6 @@
 SPECIFICATION Spec
 CONSTANT Mode = "fixed"
+CONSTANT IntoMode = "faithful"
 CONSTANT Tier = "quick"
 INVARIANT LayoutRoundTrip
 INVARIANT IndexInjective
